@@ -68,7 +68,9 @@ RefSign(c, A, B) ==
 
 Compile(c) ==
   [d |-> c.d, sig |-> c.sig, spell |-> c.spell, order |-> c.order,
-   signs |-> TLCEval([p \in Blades(c.d) \X Blades(c.d) |-> RefSign(c, p[1], p[2])]),
+   \* explicit table up to d = 6; above that entries are computed on demand
+   signs |-> IF c.d <= 6 THEN TLCEval([p \in Blades(c.d) \X Blades(c.d) |-> RefSign(c, p[1], p[2])])
+             ELSE [p \in Blades(c.d) \X Blades(c.d) |-> RefSign(c, p[1], p[2])],
    pop |-> TLCEval([B \in Blades(c.d) |-> Popcount(c.d, B)])]
 Sgn(cc, A, B) == cc.signs[<<A, B>>]
 
